@@ -121,7 +121,7 @@ def gen_prog(rng, size):
     nc = len(par)
     nk = rng.choice([1, 1, 2, 3])
     with_ns = [c for c in range(nc) if nsd[c] is not None]
-    nops = rng.randint(1, size)
+    nops = rng.choice([rng.randint(1, 5), rng.randint(4, 14), rng.randint(4, 14), rng.randint(12, size)]) if size > 12 else rng.randint(1, size)
     ops, probes, vals = [], [], []
 
     def related_cls(c, up=True):
@@ -143,31 +143,41 @@ def gen_prog(rng, size):
         if not with_ns:
             return None
         good = [c for c in with_ns if anc(par, c, target)]
-        if good and rng.random() < 0.85:
+        if good and rng.random() < 0.88:
             return gen_ns(rng, nsd, rng.choice(good))
+        if not good and rng.random() < 0.7:
+            return None
         return gen_ns(rng, nsd, rng.choice(with_ns))
 
     for t in range(nops):
         r = rng.random()
         o = None
-        if r < 0.45 or not any(x is not None for x in vals):
+        if r < 0.38 or not any(x is not None for x in vals):
             cls = rng.randrange(nc) if rng.random() < 0.9 else 0
             init = None
             if rng.random() < 0.6:
-                init = pick_var(cls)
+                init = pick_var()
+                if init is not None and rng.random() < 0.85:
+                    # a target the init set is compatible with, often its own class
+                    cls = vals[init] if rng.random() < 0.4 else related_cls(vals[init], up=False)
             # biased to "no namespaces": that is where the interning shortcuts are
             nn = rng.choice([0, 0, 0, 0, 1, 1, 2, 3])
             nss = [n for n in (ns_for(cls) for _ in range(nn)) if n]
             o = {"op": "new", "k": rng.randrange(nk) if rng.random() < 0.5 else 0, "cls": cls,
                  "init": init, "nss": nss}
-        elif r < 0.57:
+        elif r < 0.52:
             x = pick_var()
             nn = rng.choice([0, 1, 1, 1, 2, 3]) if rng.random() < 0.9 else 0
             nss = [n for n in (ns_for(vals[x]) for _ in range(nn)) if n]
             o = {"op": "upd", "x": x, "nss": nss}
-        elif r < 0.69:
+            if not nss and rng.random() < 0.85:   # keep update() without arguments rare
+                o = {"op": "conv", "x": x, "rc": related_cls(vals[x], up=rng.random() < 0.5)}
+        elif r < 0.65:
             x = pick_var()
             rc = related_cls(vals[x]) if rng.random() < 0.85 else rng.randrange(nc)
+            owners = [c for c in chain(par, vals[x]) if nsd[c] is not None]
+            if owners and rng.random() < 0.75:
+                rc = rng.choice(owners)
             nf = len(nsd[rc]) if nsd[rc] is not None else 2
             js = rng.sample(range(nf + 1), rng.choice([0, 1, 1, min(2, nf + 1)]))
             if rng.random() < 0.8:
@@ -176,7 +186,7 @@ def gen_prog(rng, size):
             fields = [[j, (nsd[rc][j] if nsd[rc] is not None and j < nf and rng.random() < 0.5
                            else rng.choice([0, 1, 7, -3]))] for j in js]
             o = {"op": "updf", "x": x, "rc": rc, "fields": fields}
-        elif r < 0.81:
+        elif r < 0.78:
             x = pick_var()
             q = rng.random()
             rc = (related_cls(vals[x]) if q < 0.4 else related_cls(vals[x], up=False) if q < 0.8
@@ -559,10 +569,10 @@ def run(ctx):
         cases = [ctx.replay["replay"]["case"]]
         ncorpus = 0
     else:
-        np_, ns_, nct, nr = (220, 260, 160, 40) if ctx.quick else (4000, 3000, 1500, 200)
+        np_, ns_, nct, nr = (300, 260, 160, 40) if ctx.quick else (6000, 3000, 1500, 200)
         corpus = list(CORPUS) + list(STMT_CORPUS)
         ncorpus = len(corpus)
-        cases = corpus + [gen_prog(rng, 30 if i % 4 == 0 else 12) for i in range(np_)]
+        cases = corpus + [gen_prog(rng, 30 if i % 3 else 8) for i in range(np_)]
         cases += [gen_stmt(rng) for _ in range(ns_)] + [gen_ctor(rng) for _ in range(nct)]
         cases += [gen_rend(rng) for _ in range(nr)]
     codes, errors, impl, diags = evaluate(cases, want_diag=True)
